@@ -198,7 +198,11 @@ def check(c, viol, counters):
                 v("interface-%s-names-or-count-differ%s" % (what, tag), "source %s, output %s" % ([s[0] for s in sa], [s[0] for s in sb]))
             else:
                 d = next((x, y) for x, y in zip(sa, sb) if x != y)
-                v("interface-%s-tensor-changed" % what, "source %s, output %s" % d)
+                tag = ""
+                prod = [op for op in ssg.ops if any(ssg.tensors[o].name == d[0][0] for o in op.outputs)]
+                if what == "outputs" and tuple(d[1][1]) == tuple(d[0][1]) + (1,) and d[0][2:] == d[1][2:] and prod and prod[0].builtin == 56:
+                    tag = ":trailing-unit-dimension-appended-to-accelerated-argmax-output"
+                v("interface-%s-tensor-changed%s" % (what, tag), "source %s, output %s" % d)
     # ---- operators
     oprod = {}
     for k, op in enumerate(osg.ops):
